@@ -1,7 +1,7 @@
 (* C18 property theorems: ONLY statements closed by `exact`, each followed by Print Assumptions.
    Model: C18_Model.v (literal transcription of path.cc / stringutility.hh); spec: C18_Spec.v. *)
 From Coq Require Import List Arith Bool Ascii.
-From DuneV Require Import Params_gen C18_Model C18_Spec C18_Proofs_Str C18_Proofs_Passes C18_Proofs_Pass4 C18_Proofs.
+From DuneV Require Import Params_gen C18_Model C18_Spec C18_Proofs_Str C18_Proofs_Passes C18_Proofs_Pass4 C18_Proofs C18_Proofs_Tables C18_Proofs_Pretty.
 Import ListNotations.
 Local Open Scope char_scope.
 
@@ -35,6 +35,49 @@ Theorem C18_abs_never_escapes : forall p, c18_is_abs p = true ->
 Proof. exact c18_abs_never_escapes. Qed.
 Print Assumptions C18_abs_never_escapes.
 
+(* pathIndicatesDirectory: the last '/'-separated component is empty, "." or ".." (all strings) *)
+Theorem C18_isdir : forall p, c18_pathIndicatesDirectory p = c18_spec_isdir p.
+Proof. exact c18_isdir_table. Qed.
+Print Assumptions C18_isdir.
+
+(* concatPaths: the documented table (all strings), and its meaning: for a relative p the result denotes
+   "p interpreted from where base leads" *)
+Theorem C18_concat : forall base p,
+  c18_concatPaths base p = c18_spec_concat base p
+  /\ (c18_is_abs p = false -> c18_denote (c18_concatPaths base p) = c18_denote_then base p).
+Proof. exact (fun base p => conj (c18_concat_table base p) (c18_concat_denote base p)). Qed.
+Print Assumptions C18_concat.
+
+(* prettyPath: the documented table as a function of the denotation, for ALL strings and both flags;
+   the one-argument overload uses pathIndicatesDirectory *)
+Theorem C18_pretty : forall p d,
+  c18_prettyPath p d = C18_Ok (c18_spec_pretty p d)
+  /\ c18_prettyPath1 p = C18_Ok (c18_spec_pretty p (c18_spec_isdir p)).
+Proof. exact (fun p d => conj (c18_pretty_table p d) (c18_pretty1_table p)). Qed.
+Print Assumptions C18_pretty.
+
+(* e.g. prettyPath p d = "." exactly for the paths whose sanitised form is empty *)
+Theorem C18_pretty_current_dir : forall p d, c18_canon p = [] -> c18_prettyPath p d = C18_Ok ["."].
+Proof. exact c18_pretty_current_dir. Qed.
+Print Assumptions C18_pretty_current_dir.
+
+(* relativePath.  Full statement intended (DESIGN C18_relative_inverse), for all strings base, p:
+     (forall r, c18_relativePath base p = C18_Ok r -> c18_denote (c18_concatPaths base r) = c18_denote p)
+     /\ (c18_relativePath base p = C18_NotImplemented <-> c18_spec_rel_defined base p = false).
+   Proved here: exactly that (plus: the result is in normal form, no fuel exhaustion) for ALL PAIRS of strings over
+   {'/','.','a','b'} of length <= 4 (116 281 pairs; bound in the statement).  Missing for the unbounded statement:
+   the lemma that the character-level common prefix + back-up of two rendered locations is the rendered
+   common component prefix.  Since processPath is proved equal to the rendering of the denotation for all
+   strings (C18_bridge), the remaining gap is that one lemma about c18_common_len/c18_backup on c18_join. *)
+Theorem C18_relative_inverse_partial : forall a b,
+  In a (c18_strings c18_path_alpha 4) -> In b (c18_strings c18_path_alpha 4) ->
+  (forall r, c18_relativePath a b = C18_Ok r ->
+     c18_denote (c18_concatPaths a r) = c18_denote b /\ c18_nf r = true /\ c18_spec_rel_defined a b = true)
+  /\ (c18_relativePath a b = C18_NotImplemented -> c18_spec_rel_defined a b = false)
+  /\ c18_relativePath a b <> C18_OutOfFuel.
+Proof. exact c18_relative_inverse_bounded. Qed.
+Print Assumptions C18_relative_inverse_partial.
+
 (* prefix / suffix tests are the plain definitions *)
 Theorem C18_prefix_suffix : forall s x,
   (c18_hasPrefix s x = true <-> exists t, s = x ++ t) /\ (c18_hasSuffix s x = true <-> exists t, s = t ++ x).
@@ -62,4 +105,16 @@ Example C18_example_abs : c18_is_abs ["/"; "a"; "/"; "."; "."; "/"; "."; "."] = 
 Proof. vm_compute; split; reflexivity. Qed.
 Example C18_example_format_long :   (* longer than the stack buffer: heap retry *)
   length (repeat "x" 1500) = 1500 /\ c18_formatString (repeat "x" 1500) = repeat "x" 1500.
+Proof. vm_compute; split; reflexivity. Qed.
+Example C18_example_relative :   (* base "../a", target "../../b"  ->  "../../b/" *)
+  c18_relativePath [".";".";"/";"a"] [".";".";"/";".";".";"/";"b"] = C18_Ok [".";".";"/";".";".";"/";"b";"/"]
+  /\ c18_relativePath [".";"."] [] = C18_NotImplemented.
+Proof. vm_compute; split; reflexivity. Qed.
+Example C18_example_sweep_size : length (c18_strings c18_path_alpha 4) = 341.
+Proof. vm_compute; reflexivity. Qed.
+Example C18_example_isdir : c18_pathIndicatesDirectory ["a";"/";".";"."] = true /\ c18_pathIndicatesDirectory ["a";".";"."] = false.
+Proof. vm_compute; split; reflexivity. Qed.
+Example C18_example_pretty :   (* "a/../../b//" as a directory -> "../b/" ; "/a/.." -> "/" *)
+  c18_prettyPath ["a";"/";".";".";"/";".";".";"/";"b";"/";"/"] true = C18_Ok [".";".";"/";"b";"/"]
+  /\ c18_prettyPath1 ["/";"a";"/";".";"."] = C18_Ok ["/"].
 Proof. vm_compute; split; reflexivity. Qed.
